@@ -7,7 +7,7 @@ use proc_macro2::{Ident, TokenStream};
 use quote::{format_ident, quote};
 
 use super::common::{
-    generate_derives, generate_enum_type, generate_field_type, generate_rule_parse_function,
+    check_ident, check_path, generate_derives, generate_enum_type, generate_field_type, generate_rule_parse_function,
     safe_ident, Arity, Codegen, CodegenRule, CodegenSettings, FieldDescriptor, PublicType,
     RecordPosition,
 };
@@ -28,6 +28,15 @@ impl CodegenRule for Rule {
         let fields = self.definition.get_fields(grammar)?;
 
         self.check_flags(&flags, &settings)?;
+        check_ident(&self.name)?;
+        for field in &fields {
+            if field.name != "_override" {
+                check_ident(field.name)?;
+            }
+            for type_name in field.types.keys() {
+                check_ident(type_name)?;
+            }
+        }
 
         let name = &self.name;
         let rule_mod = self.rule_module_ident();
@@ -314,6 +323,9 @@ impl Rule {
                 None
             }
         });
+        for parts in check_name_parts.clone() {
+            check_path(parts)?;
+        }
         let check_idents = check_name_parts.clone().map(|ps| {
             let part_idents = ps.iter().map(safe_ident);
             quote!(#(#part_idents)::*)
